@@ -382,6 +382,8 @@ func checkC10(c *Ctx, r *Report) {
 	// is terminal inside a session) nor sends on its own (rule shared with C11, C09)
 	checkOneWriteOneRead(c, r)
 	checkSendSites(c, r)
+	// a session-less command sent again is encoded again: the buffer is never replayed (shared with C09)
+	checkSessionlessSerialisedAfresh(c, r, nil)
 	checkContextUndiminished(c, r)
 	// "each retransmission being a complete, correctly addressed encoding": signed from clean
 	// hash state — a reply rejected just before the retransmission must not be left in the
